@@ -26,6 +26,7 @@ type VC05Sidx struct {
 	held    map[int]*Snapshot
 	pending *snapshotpkg.Transition[*Snapshot]
 	mi      *MergerIntroduction
+	snapIDs map[*Snapshot]int
 	nextID  uint64
 	nBatch  int
 }
@@ -40,7 +41,7 @@ func VC05SidxNew(root string) *VC05Sidx {
 	if err != nil {
 		panic(err)
 	}
-	return &VC05Sidx{s: x.(*sidx), held: map[int]*Snapshot{}, nextID: 1}
+	return &VC05Sidx{s: x.(*sidx), held: map[int]*Snapshot{}, snapIDs: map[*Snapshot]int{}, nextID: 1}
 }
 
 // Pending reports whether a publication is prepared but not yet committed / rolled back.
@@ -87,6 +88,24 @@ func (v *VC05Sidx) FlushAll() {
 	}
 	v.s.IntroduceFlushed(fi)
 	fi.Release()
+}
+
+// FlushEmpty is a flush round in which this index has nothing to flush (the trace flusher still sends every sidx an
+// introduction): Flush with an id that no part has yields an empty introduction, which is published exactly as
+// trace.introduceFlushed does it: NewTransition(PrepareFlushed) + Commit + Release.
+func (v *VC05Sidx) FlushEmpty() bool {
+	fi, err := v.s.Flush(map[uint64]struct{}{1 << 60: {}})
+	if err != nil {
+		panic(err)
+	}
+	if fi == nil {
+		return false
+	}
+	tr := snapshotpkg.NewTransition[*Snapshot](v.s, v.s.PrepareFlushed(fi))
+	tr.Commit()
+	tr.Release()
+	fi.Release()
+	return true
 }
 
 func (v *VC05Sidx) fileIDs(ids []uint64) map[uint64]struct{} {
@@ -238,14 +257,35 @@ func vc05SidxList(s *Snapshot) string {
 	return "[" + strings.Join(b, ",") + "]"
 }
 
-// Dump renders: C=[parts] Q=<QuerySync on the table> H=k:[parts]=<query through the held snapshot>;…
+func (v *VC05Sidx) sid(s *Snapshot) int {
+	if id, ok := v.snapIDs[s]; ok {
+		return id
+	}
+	id := len(v.snapIDs) + 1
+	v.snapIDs[s] = id
+	return id
+}
+
+// Dump renders: C=[parts] R=<snapshot no>:<ref> Q=<QuerySync on the table>
+// H=k:<snapshot no>:<ref>:[parts]=<query through the held snapshot>;… W=<part>:<ref>,… (parts of live snapshots)
 func (v *VC05Sidx) Dump() string {
 	var sb strings.Builder
+	refs := map[string]int32{}
+	note := func(s *Snapshot) {
+		for _, pw := range s.parts {
+			k := "f"
+			if pw.isMemPart() {
+				k = "m"
+			}
+			refs[fmt.Sprintf("%d%s", pw.ID(), k)] = pw.refCount()
+		}
+	}
 	cur := v.s.currentSnapshot()
 	if cur == nil {
-		sb.WriteString("C=-")
+		sb.WriteString("C=- R=-")
 	} else {
-		sb.WriteString("C=" + vc05SidxList(cur))
+		note(cur)
+		fmt.Fprintf(&sb, "C=%s R=%d:%d", vc05SidxList(cur), v.sid(cur), cur.refCount()-1) // minus our own pin
 		cur.decRef()
 	}
 	sb.WriteString(" Q=" + vc05Keys(v.s.QuerySync(context.Background(), QueryRequest{SeriesIDs: []common.SeriesID{1}})))
@@ -256,9 +296,21 @@ func (v *VC05Sidx) Dump() string {
 	sort.Ints(keys)
 	var hl []string
 	for _, k := range keys {
-		hl = append(hl, fmt.Sprintf("%d:%s=%s", k, vc05SidxList(v.held[k]), v.queryThrough(v.held[k])))
+		h := v.held[k]
+		note(h)
+		hl = append(hl, fmt.Sprintf("%d:%d:%d:%s=%s", k, v.sid(h), h.refCount(), vc05SidxList(h), v.queryThrough(h)))
 	}
 	sb.WriteString(" H=" + strings.Join(hl, ";"))
+	names := make([]string, 0, len(refs))
+	for n := range refs {
+		names = append(names, n)
+	}
+	sort.Strings(names)
+	var wl []string
+	for _, n := range names {
+		wl = append(wl, fmt.Sprintf("%s:%d", n, refs[n]))
+	}
+	sb.WriteString(" W=" + strings.Join(wl, ","))
 	return sb.String()
 }
 
